@@ -1,0 +1,31 @@
+//go:build verif
+
+package fstxn
+
+// VerifHook is installed by the verification harness (build tag verif).
+// kind: 0 = before inode-lock acquire, 1 = after acquire, 2 = before release,
+// 3 = before journal commit (arg = wait flag), 4 = after journal commit (arg = ok),
+// 5 = abort, 6 = before log flush (COMMIT), 7 = after log flush (arg = ok).
+var VerifHook func(kind int, op *FsTxn, arg uint64)
+
+func verifEv(kind int, op *FsTxn, arg uint64) {
+	if VerifHook != nil {
+		VerifHook(kind, op, arg)
+	}
+}
+
+func verifB(b bool) uint64 {
+	if b {
+		return 1
+	}
+	return 0
+}
+
+// VerifHeld returns the inode numbers this transaction currently holds locked.
+func (op *FsTxn) VerifHeld() []uint64 {
+	var r []uint64
+	for i := range op.inodes {
+		r = append(r, uint64(i))
+	}
+	return r
+}
